@@ -100,6 +100,12 @@ pub fn gen_case(prop: &str, rng: &mut Rng, corpus: &Corpus, thorough: bool) -> C
         let n = rng.range(1, 60) as usize;
         c.code = c.code.replacen('[', &format!("[{}", mv.repeat(n)), 1);
     }
+    if matches!(prop, "C04" | "C07") && rng.chance(1, 4) {
+        // end the text on its last `]` (a budget can then run out on the very last byte)
+        if let Some(p) = c.code.rfind(']') {
+            c.code.truncate(p + 1);
+        }
+    }
     if prop == "C04" && rng.chance(1, 2) {
         // "every other character is a comment": ASCII, control and multi-byte UTF-8 text anywhere,
         // in particular inside loops that are skipped
@@ -210,6 +216,11 @@ fn jobs_for(prop: &str, rng: &mut Rng, case: &Case, input: &[u8], sp: &SpecRun, 
             if halted {
                 push(Backend::Inplace, 0, Mode::Exec, &io);
                 push(Backend::Inplace, *rng.pick(&[1u32, 2, 3]), Mode::Limited(usize::MAX), &io);
+                // the fuzzer's oracle is the *limited* path: a cut-short run must say so
+                let n = sp.backedges.max(1);
+                for bud in [0u64, 1, 2, 3, n - 1, n.saturating_sub(2), rng.below(n), rng.below(n), rng.below(n)] {
+                    push(Backend::Inplace, 0, Mode::Limited(bud as usize), &io);
+                }
             }
         }
         "C06" => {
@@ -998,11 +1009,124 @@ pub fn c17(args: &Args) -> i32 {
             }
         }
     }
+    // requests no allocator can satisfy (>= 2^60 cells away): the growth must end in the
+    // allocation-failure abort or a panic (layout overflow), never return, never fault
+    if args.shard == 0 || args.get("huge-only").is_some() {
+        c17_huge(&mut t, args.get("huge-case").map(|s| s.to_string()));
+    }
     t.write(&args.out, &[("wall_s".to_string(), format!("{:.2}", start.elapsed().as_secs_f64()))]);
     if t.violations.is_empty() {
         0
     } else {
         1
+    }
+}
+
+fn c17_huge_scenario<C: hpbf::CellType>(pos: isize, pre: u32, op: u32) {
+    let mut mem = hpbf::runtime::Memory::<C>::new();
+    if pre == 1 {
+        // an existing tape of 21 written cells
+        for i in 0..21 {
+            mem.write(0, C::from_u64(i + 1));
+            mem.mov(1);
+        }
+        mem.mov(-21);
+    }
+    match op {
+        0 => {
+            mem.mov(pos);
+            mem.write(0, C::from_u64(7));
+        }
+        1 => {
+            // (an empty range needs nothing: only ask where pos + 1 exists)
+            match pos.checked_add(1) {
+                Some(end) => mem.make_accessible(pos, end),
+                None => panic!("not applicable: empty range"),
+            }
+        }
+        _ => {
+            mem.write(pos, C::from_u64(7));
+        }
+    }
+    // still here: use the cell so that a bogus tape is touched
+    std::hint::black_box(mem.read(if op == 0 { 0 } else { pos }));
+}
+
+fn c17_huge(t: &mut Tally, only: Option<String>) {
+    let mut positions: Vec<isize> = Vec::new();
+    for k in [60u32, 61, 62] {
+        for d in [-1isize, 0, 1] {
+            positions.push((1isize << k) + d);
+            positions.push(-((1isize << k) + d));
+        }
+    }
+    positions.push(isize::MAX);
+    positions.push(isize::MAX - 1);
+    positions.push(isize::MIN + 1);
+    for bits in [8u32, 16, 32, 64] {
+        for &pos in &positions {
+            for pre in [0u32, 1] {
+                for op in [0u32, 1, 2] {
+                    // plain allocator only: with the guard arena armed, the panic machinery's own
+                    // small allocations after a failed giant request did not return in trials
+                    for mode in [alloc::PASS] {
+                        let name = format!("i{bits} pos={pos} pre={pre} op={op} alloc_mode={mode}");
+                        if let Some(o) = &only {
+                            if *o != name {
+                                continue;
+                            }
+                        }
+                        sys::shared().fault_seen = 0;
+                        let end = sys::fork_run(30_000, || {
+                            alloc::install_fault_handler();
+                            alloc::set_mode(mode);
+                            alloc::arm(true);
+                            let r = std::panic::catch_unwind(|| match bits {
+                                8 => c17_huge_scenario::<u8>(pos, pre, op),
+                                16 => c17_huge_scenario::<u16>(pos, pre, op),
+                                32 => c17_huge_scenario::<u32>(pos, pre, op),
+                                _ => c17_huge_scenario::<u64>(pos, pre, op),
+                            });
+                            alloc::arm(false);
+                            if r.is_ok() {
+                                3
+                            } else {
+                                0
+                            }
+                        });
+                        t.inc("evaluations", 1);
+                        t.inc("huge.evaluations", 1);
+                        t.distinct.insert(fnv64(name.as_bytes()));
+                        let why = match end {
+                            sys::ChildEnd::Exit(0) => {
+                                t.inc("huge.ending.panic", 1);
+                                None
+                            }
+                            sys::ChildEnd::Signal(6) => {
+                                t.inc("huge.ending.abort", 1);
+                                None
+                            }
+                            sys::ChildEnd::Exit(3) => Some("the operation returned normally although no allocator can provide the tape it needs".to_string()),
+                            sys::ChildEnd::Exit(70) => Some(format!("memory fault at {:#x} after the impossible growth", sys::shared().fault_addr)),
+                            sys::ChildEnd::Exit(c) if c == alloc::EXIT_BAD_LAYOUT => Some(format!("allocator contract broken: {}", alloc::bad_layout_text())),
+                            sys::ChildEnd::Timeout => {
+                                t.inc("inconclusive", 1);
+                                t.inconclusive.push(format!("huge {name}: watchdog"));
+                                None
+                            }
+                            other => Some(format!("unexpected end {other:?}")),
+                        };
+                        match why {
+                            None => t.inc("held", 1),
+                            Some(w) => {
+                                t.inc("violated", 1);
+                                t.violation(&format!("huge i{bits} op{op} pre{pre}"), Obj::new().s("kind", "huge_request").s("huge_case", &name).n("bits", bits as u64).s("why", &w));
+                            }
+                        }
+                    }
+                }
+            }
+        }
     }
 }
 
